@@ -212,9 +212,10 @@ class DictArray(StorageBase):
 def _masked_empty(shape: tuple[int, ...]) -> np.ndarray:
     # This is a workaround for the fact that setting `x[:] = np.ma.masked`
     # sets the elements to 0.0.
-    x: np.ndarray = np.empty((1,), dtype=object)
-    x[0] = np.ma.masked
-    return np.tile(x, shape)
+    # (`np.tile` of a 1-element array cannot be used: it returns shape (1,) for `shape == ()`.)
+    x: np.ndarray = np.empty(shape, dtype=object)
+    x.fill(np.ma.masked)
+    return x
 
 
 class SharedMemoryDictArray(DictArray):
